@@ -90,7 +90,11 @@ def library_programs():
     from checks import C13
     fns = C13.function_names()
     pool = ["<< 'pear', 'apple', 'fig', 'kiwi', 'plum', 'lime' >>", "<<< 'pear' => 1, 'apple' => 2, 'fig' => 3, 'kiwi' => 4 >>>",
-            "['nut', 'date', 'oat']", "<< 'oat', 'pear', 'yam', 2, 1.5 >>", "2", "fn(x) x", "'fig'"]
+            "['nut', 'date', 'oat']", "<< 'oat', 'pear', 'yam', 2, 1.5 >>", "2", "fn(x) x", "'fig'",
+            # a key under which distinct elements tie: a stable sort / first-minimum then shows the order the elements were enumerated in
+            "fn(x) length(string(x))"]
+    tie_args = ["key = fn(x) length(string(x))", "key = fn(x) string(x)[0]", "cmp = fn(p, q) compare(length(string(p)), length(string(q)))",
+                "fn(x) length(string(x)) > 3", "fn(p, q) length(string(p)) < length(string(q))"]
     skip = {"random", "choice", "choices", "sample", "set_seed", "date", "now", "timestamp", "file_output", "file_input", "make_dir", "file_copy",
             "file_move", "file_delete", "list_dir", "file_info", "file_exists", "get_env", "which", "ls", "info", "read_file", "close"}
     progs = []
@@ -100,6 +104,8 @@ def library_programs():
         pre = "" if "->" not in call else "require %s; " % call.split("->")[0]
         for a in pool[:4]:
             progs.append((pre + "def r = %s(%s); [string(r), r]" % (call, a), "->" not in call))
+            for t in tie_args:
+                progs.append((pre + "def r = %s(%s, %s); [string(r), r]" % (call, a, t), "->" not in call))
             for b in pool:
                 progs.append((pre + "def r = %s(%s, %s); [string(r), r]" % (call, a, b), "->" not in call))
                 if b is not a:
